@@ -8,6 +8,8 @@ From Coq Require Import ZArith QArith List Bool Lia.
 Import ListNotations.
 From Inf Require Import model.RepexM proofs.RepexP proofs.FracP.
 From Inf Require model.PermM.
+From Inf Require proofs.PermUnsortP.
+From Coq Require Import Permutation.
 From Inf Require Import model.MatchM proofs.MatchP proofs.BridgeMatchP proofs.BridgeFracP proofs.BridgeInfRetisP proofs.BridgeRunP.
 Open Scope nat_scope.
 
@@ -116,6 +118,24 @@ Definition ex4_ops : list op :=
   [OpPick (mkPick 1 1 (Some 0)) 0; OpPick (mkPick 2 2 None) 1;
    OpTreat 1 true [[0;1;1;0]%Z] [[0;0;0;0]; [0;0;0;0]; [0;0;1;0]; [0;0;0;0]]%Q;
    OpTreat 0 false [[1;0;0;0]; [0;1;0;0]]%Z [[1;0;0;0]; [0;1#2;1#2;0]; [0;1#2;1#2;0]; [0;0;0;0]]%Q].
+
+(* which PATH a row of P is credited to: inf_retis computes P on the row-sorted idle block and
+   undoes the sorting with "out[sort_idx] = out.copy()"; for EVERY permutation that assignment is
+   the inverse of the row selection "non_locked[sort_idx]" (both directions), so row i of the
+   result belongs to the path in row i of the input *)
+Theorem C04_unsort_inverts_sort : forall n idx (M : PermM.matrix),
+  Permutation idx (seq 0 n) -> length M = n ->
+  PermM.unsort idx (PermUnsortP.select_rows idx M) = M /\ PermUnsortP.select_rows idx (PermM.unsort idx M) = M.
+Proof. intros n idx M HP L. split; [exact (PermUnsortP.unsort_select n idx M HP L)|exact (PermUnsortP.select_unsort n idx M HP L)]. Qed.
+Print Assumptions C04_unsort_inverts_sort.
+
+(* the variant "out = out[sort_idx]" (selection applied twice) is refuted on a 3-cycle: it agrees
+   with the code only on involutions, i.e. on sorted states and single swaps *)
+Theorem C04_select_twice_refuted :
+  exists idx (M : PermM.matrix), Permutation idx (seq 0 3) /\ length M = 3 /\
+    PermM.unsort idx (PermUnsortP.select_rows idx M) = M /\ PermUnsortP.select_rows idx (PermUnsortP.select_rows idx M) <> M.
+Proof. exact PermUnsortP.select_twice_refuted. Qed.
+Print Assumptions C04_select_twice_refuted.
 
 Example C04_example_FInv : FInv ex4.
 Proof.
